@@ -4,9 +4,13 @@ import glob, json, os, subprocess
 V = os.path.dirname(os.path.dirname(os.path.abspath(__file__)))
 checks = []
 claimed = set()
+ready_path = os.path.join(V, "tools", "ready.txt")
+ready = set(open(ready_path).read().split()) if os.path.exists(ready_path) else None
 for p in sorted(glob.glob(os.path.join(V, "props", "C*.json"))):
     s = json.load(open(p))
     pid = s["property"]
+    if ready is not None and pid not in ready:
+        continue
     m = s.get("manifest", {})
     claimed.add(pid)
     checks.append({
